@@ -90,7 +90,7 @@ func NewCache(s *server) elton.Handler {
 		key := getKey(c.Request)
 		httpCache := disp.GetHTTPCache(key)
 		cache.VerifPoint("req.entry", httpCache, c, disp, key)
-		cacheStatus, httpResp := httpCache.Get()
+		cacheStatus, httpResp, age := httpCache.GetWithAge()
 		cache.VerifPoint("req.got", httpCache, c, int(cacheStatus), httpResp)
 
 		cacheable := false
@@ -110,7 +110,7 @@ func NewCache(s *server) elton.Handler {
 			// 设置缓存数据
 			setHTTPResp(c, httpResp)
 			// 设置缓存数据的age
-			setHTTPRespAge(c, httpCache.Age())
+			setHTTPRespAge(c, age)
 			return nil
 		}
 
